@@ -35,7 +35,7 @@ def ends_of(res):
 def make_case(seed, k, mode):
     rng = random.Random(f"{seed}:{k}:{mode}")
     flags = mode == "flags"
-    g = gen.gen_grammar(rng, flags=flags, excl=flags and rng.random() < 0.6)
+    g = gen.gen_grammar(rng, flags=flags, excl=flags and rng.random() < 0.6, alias=not flags)
     if flags:
         tg = {}
         for r in g["rules"]:
@@ -44,6 +44,29 @@ def make_case(seed, k, mode):
             elif r["def"][0] != "alt" and rng.random() < 0.2:
                 tg[r["name"]] = [1, 0, 1]      # the setter must ignore rules whose definition is not an alternation
         g["toggles"] = tg
+        # every other flagged grammar is built from ABNF TEXT through the library's own reader (flags can only be set afterwards,
+        # through the public property): first-match and exclusions must mean the same on compiled rules — a group inside an
+        # alternation stays a nested alternation, "=/" appends after the existing alternatives
+        import loader_x
+        if rng.random() < 0.5 and all(loader_x.text_ok(r["def"]) and loader_x.simplify_for_text(r["def"]) == (["alt", 0] + r["def"][2:] if r["def"][0] == "alt" else r["def"])
+                                      for r in g["rules"]):
+            lines_ = []
+            for r in g["rules"]:
+                d = r["def"]
+                if d[0] == "alt" and d[1] and (r["name"] not in tg or tg[r["name"]][-1] != 1):
+                    tg[r["name"]] = tg.get(r["name"], []) + [1]
+                if d[0] == "alt" and not d[1] and r["name"] in tg and tg[r["name"]][-1] != 0:
+                    tg[r["name"]] = tg[r["name"]] + [0]
+                if d[0] == "alt" and len(d[2]) >= 3 and rng.random() < 0.5:
+                    # written as  first alternatives, then "=/" with the rest: the order of alternatives must be the written one
+                    k = rng.randint(1, len(d[2]) - 2)
+                    head = ["alt", 0, d[2][:k]] if k > 1 else d[2][0]
+                    lines_.append(loader_x.render_rule(rng, r["name"], head, False))
+                    lines_.append(loader_x.render_rule(rng, r["name"], ["alt", 0, d[2][k:]], False, incr=True))
+                    r["def"] = ["alt", d[1], [head, ["alt", 0, d[2][k:]]]]
+                else:
+                    lines_.append(loader_x.render_rule(rng, r["name"], ["alt", 0] + d[2:] if d[0] == "alt" else d, False))
+            g["via_text"] = "\r\n".join(lines_) + "\r\n"
     inputs = gen.gen_inputs(rng, g)
     return {"seed": seed, "index": k, "mode": mode, "grammar": g, "inputs": inputs}
 
@@ -87,6 +110,12 @@ def fixed_cases():
                         ("f", ["cat", [["rep", 0, None, L(0, "a")], ["opt", L(0, "b")]]], None),
                         ("g", ["cat", [["rep", 0, None, L(0, "a")], ["rep", 0, 1, L(0, "a")], ["opt", L(0, "b")]]], None)],
          ["a" * 254, "a" * 256, "a" * 257, "a" * 258, "a" * 259, "a" * 300, "a" * 301, "a" * 258 + "b", "a" * 257 + "b"])
+    # deep backtracking: the longest overall match needs the first element to give back more than 128 / 256 positions, so every
+    # one of its hundreds of candidate ends must survive until the later elements have been tried
+    case("deep-backtrack", [("x", ["cat", [["rep", 0, None, L(0, "a")], ["rep", 140, 140, L(0, "a")]]], None),
+                            ("y", ["cat", [["rep", 0, None, L(0, "a")], ["opt", ["cat", [["rep", 140, 140, L(0, "a")], L(0, "!")]]]]], None),
+                            ("z", ["cat", [["rep", 1, None, ["range", 0x61, 0x7A]], ["rep", 270, 270, L(0, "a")], L(0, "b")]], None)],
+         ["a" * 300, "a" * 300 + "!", "a" * 139, "a" * 140, "a" * 141, "a" * 290 + "b", "a" * 270 + "b"], alpha="ab!")
     case("right-recursion", [("r", ["alt", 0, [["cat", [L(0, "x"), ["ref", "r"]]], L(0, "x")]], None)],
          ["x", "xx", "xxxxx", "xxy", ""], alpha="xy")
     case("case-sensitive", [("a", L(1, "aB"), None), ("b", L(0, "aB"), None)],
@@ -172,7 +201,9 @@ def run_cases(cases, want_parse=True):
         t_case = time.time()
         slow = False
         for s in c["inputs"]:
-            if slow or time.time() - t_case > 3.0:
+            # generated cases get a small time budget (exponentially ambiguous grammars are skipped); the hand-picked ones are
+            # always run to the end, whatever the load of the machine
+            if slow or time.time() - t_case > (3.0 if c.get("mode") != "fixed" else 90.0):
                 stats["slow_cases"] = stats.get("slow_cases", 0) + 1
                 break
             ln = min(len(s), 12)
@@ -314,6 +345,8 @@ def main():
     ap.add_argument("--mode", default="plain")
     ap.add_argument("--out", required=True)
     ap.add_argument("--cases", default=None, help="JSON file with explicit cases (replay/corpus)")
+    ap.add_argument("--fixed", default="both", choices=["both", "only", "none"],
+                    help="the hand-picked cases: with the generated ones (both), alone (only), or left out (none)")
     ap.add_argument("--churn", action="store_true",
                     help="every input is a fresh, short-lived string object and the caches are cleared between inputs "
                          "(results must not depend on what was parsed before, nor on object addresses being reused)")
@@ -331,7 +364,12 @@ def main():
             rng = random.Random(a.seed)
             cases = rng.sample(cases, a.n)
     else:
-        cases = fixed_cases() + [make_case(a.seed, k, a.mode) for k in range(a.n)]
+        fixed = [] if a.fixed == "none" else fixed_cases()
+        if a.fixed == "only":
+            # three jobs share the hand-picked cases: the two long-input cases get a job each (--seed 0, 1), the rest --seed 2
+            part = {"big-bounds": 0, "deep-backtrack": 1}
+            fixed = [c for c in fixed if part.get(c["index"], 2) == a.seed % 3]
+        cases = fixed + ([] if a.fixed == "only" else [make_case(a.seed, k, a.mode) for k in range(a.n)])
     records, stats = run_cases(cases)
     mism = []
     nontrivial = set()
